@@ -492,6 +492,10 @@ pub struct InboundPkt {
     pub pkt: Option<Packet>,
     pub bytes_len: usize,
     pub form: Form,
+    /// Client operation this packet acknowledges (conformant broker steps only).
+    pub ack_for: Option<(usize, AckKind)>,
+    /// Subscription references of an injected PUBLISH.
+    pub subs: Vec<SubRef>,
 }
 
 #[derive(Clone, Debug)]
@@ -524,7 +528,7 @@ pub struct World {
     tasks: BTreeMap<TaskRef, Task>,
     pub pipes: Vec<Rc<RefCell<Pipe>>>,
     pub handles: Vec<Option<ContextHandle>>,
-    pub ops: Vec<OpInfo>,
+    pub ops: BTreeMap<usize, OpInfo>,
     pub op_first_poll: BTreeMap<usize, usize>,
     pub wire: Vec<WirePkt>,
     parse_pos: Vec<usize>,
@@ -577,7 +581,7 @@ impl World {
             tasks: BTreeMap::new(),
             pipes: Vec::new(),
             handles,
-            ops: Vec::new(),
+            ops: BTreeMap::new(),
             op_first_poll: BTreeMap::new(),
             wire: Vec::new(),
             parse_pos: Vec::new(),
@@ -873,7 +877,9 @@ impl World {
                     props: all,
                     payload: payload.clone(),
                 });
-                self.inbound_publish_ids.push(pid);
+                if let Some(last) = self.inbound_publish_ids.last_mut() {
+                    *last = pid;
+                }
                 if *qos == 2 {
                     self.inbound_qos2_unreleased.insert(pid.unwrap());
                 }
@@ -946,9 +952,13 @@ impl World {
                 }
                 self.send_cmd(Cmd::End);
             }
-            Step::Op { handle, spec } => {
-                let op = self.ops.len();
-                self.ops.push(OpInfo { handle: *handle, spec: spec.clone(), step: idx });
+            Step::Op { id, handle, spec } => {
+                let op = *id;
+                if self.ops.contains_key(&op) {
+                    skip(self, "duplicate operation id");
+                    return;
+                }
+                self.ops.insert(op, OpInfo { handle: *handle, spec: spec.clone(), step: idx });
                 match self.handles.get(*handle).and_then(|h| h.as_ref()) {
                     Some(h) => {
                         let fut = op_script(h.clone(), op, spec.clone(), self.shared.clone());
@@ -970,8 +980,27 @@ impl World {
                     self.poll_task(w[pick % w.len()]);
                 }
             }
+            Step::Spurious { pick } => {
+                let idle: Vec<TaskRef> = self
+                    .tasks
+                    .iter()
+                    .filter(|(_, t)| t.status == TaskStatus::Live && !t.flag.woken.load(Ordering::SeqCst) && t.polls > 0)
+                    .map(|(r, _)| *r)
+                    .collect();
+                if idle.is_empty() {
+                    skip(self, "no idle task");
+                } else {
+                    self.poll_task(idle[pick % idle.len()]);
+                    self.fired("spurious_poll");
+                }
+            }
             Step::Settle { seed } => self.settle(*seed),
             Step::Broker { pkt, chunks, hold } => {
+                if matches!(pkt, BrokerPkt::Publish { .. }) {
+                    // keep "n-th injected PUBLISH" indices aligned with the step list even
+                    // when this step turns out not to apply
+                    self.inbound_publish_ids.push(None);
+                }
                 let Some(conn) = self.conn() else {
                     skip(self, "no connection");
                     return;
@@ -994,7 +1023,15 @@ impl World {
                         let end = p.inbound_len;
                         let iidx = self.inbound.len();
                         let seq = self.shared.push(Ev::Inbound { idx: iidx, conn, start, end });
-                        self.inbound.push(InboundPkt { idx: iidx, conn, start, end, step: idx, seq, pkt: decoded, bytes_len: bytes.len(), form });
+                        let ack_for = match pkt {
+                            BrokerPkt::Ack { op, kind, .. } => Some((*op, *kind)),
+                            _ => None,
+                        };
+                        let subs = match pkt {
+                            BrokerPkt::Publish { subs, .. } => subs.clone(),
+                            _ => Vec::new(),
+                        };
+                        self.inbound.push(InboundPkt { idx: iidx, conn, start, end, step: idx, seq, pkt: decoded, bytes_len: bytes.len(), form, ack_for, subs });
                         for c in chunks.cut(&bytes) {
                             p.held.push_back(c);
                         }
@@ -1150,6 +1187,9 @@ impl World {
             .map(|(r, _)| *r)
             .collect();
         for t in idle {
+            if self.is_woken(t) || !self.is_live(t) {
+                continue; // woken meanwhile by an earlier poll of this sweep
+            }
             let before = self.events_len();
             self.poll_task(t);
             if probe {
